@@ -77,6 +77,26 @@ def check_case(case, ctr):
                                               sorted(want), sorted(got)))
                     return V
         del older, a, newer
+    # two live enumerations of one context, advanced in lock-step, and one abandoned half-way
+    if case.n * case.m <= 16:
+        for name in ('iterconcepts', 'fast_generate_from', 'fcbo_dual'):
+            fn = getattr(algorithms, name)
+            norm = (lambda x: (x.extent.members(), x.intent.members())) if name == 'iterconcepts' \
+                else (lambda x: (x[0].members(), x[1].members()))
+            it1, it2 = iter(fn(ctx)), iter(fn(ctx))
+            half = iter(fn(ctx))
+            next(half, None)
+            got1, got2 = [], []
+            for a_, b_ in zip(it1, it2):
+                got1.append(norm(a_))
+                got2.append(norm(b_))
+            got1.extend(norm(x) for x in it1)
+            got2.extend(norm(x) for x in it2)
+            ctr['calls'] += 3
+            for got in (got1, got2, [norm(x) for x in fn(ctx)]):
+                if len(got) != len(set(got)) or set(got) != exp:
+                    bad('concept-set', name + '-two-live-enumerations', got)
+                    return V
     # a returned list is the caller's: changing it must not change a later answer
     first = algorithms.get_concepts(ctx)
     if isinstance(first, list):
